@@ -24,7 +24,7 @@ STUBS = ["np.linalg.pinv / solve -> exact inverse (adjugate)", "open3d -> stub m
 OUTSIDE = ["bodies from the make_* factories and the 5 % discretisation clause (whole-program: thousands of tetrahedron pairs)", "rounding"]
 BOUNDS = {"quick": "wrench algebra: <=2 contacts with fully symbolic centre/force (12 reals) + symbolic frame translation at 4 signed-permutation rotations; pipeline: micro-bodies of 1-2 tetrahedra, body 2 at a rational rotated pose, body 1 translated along a line (1 real)",
           "thorough": "more poses, common rigid motions, all rotations for the algebra"}
-WALL_BUDGET = {"quick": 360, "thorough": 900}
+WALL_BUDGET = {"quick": 300, "thorough": 600}
 EXPECTED_EXCEPTIONS = ()
 
 X, Y, Z = [1.0, 0.0, 0.0], [0.0, 1.0, 0.0], [0.0, 0.0, 1.0]
